@@ -50,14 +50,21 @@ def ob_chunks(n: int, kind: int) -> bool:
         real_c, real_d = TreeTag.zlib.compress, TreeTag.zlib.decompress
 
         class Z:
+            """zlib with compress/decompress replaced; every other name comes from the real module"""
+
             @staticmethod
-            def compress(data):
+            def compress(data, *a, **k):
                 return y
 
             @staticmethod
-            def decompress(data):
+            def decompress(data, *a, **k):
                 seen.append(bytes(data))
                 return b'[]'
+
+            def __getattr__(self, name):
+                return getattr(real_zlib, name)
+        real_zlib = TreeTag.zlib
+        Z = Z()
         saved = TreeTag.zlib
         TreeTag.zlib = Z
         try:
@@ -96,7 +103,7 @@ def ob_real_roundtrip(a: int, b: int, c: int, depth: int) -> bool:
 
 def ob_big_state(n: int) -> bool:
     """any state size: n sibling ids"""
-    k = pick(n, 301)
+    k = pick(n, 61) * 20
     with NoTracing():
         state = [['root', [['id%d-%s' % (i, 'é' * (i % 3))] for i in range(k)]]]
         return TreeTag.decode_seq(TreeTag.encode_seq(state)) == state
@@ -151,6 +158,8 @@ def shape(i):
 NSHAPES = 7
 T_TREE = HTML('<dtml-tree root>[<dtml-var tpId>]</dtml-tree>')
 T_TREE.cook()
+T_TREE_AC = HTML('<dtml-tree root assume_children>[<dtml-var tpId>]</dtml-tree>')
+T_TREE_AC.cook()
 LINK = re.compile(r'<a name="([^"]*)" href="([^"?]*)\?tree-([ec])=([^"#]*)#')
 
 
@@ -210,13 +219,13 @@ def closure_ok(E):
     return True
 
 
-def render(root, cookie, extra):
+def render(root, cookie, extra, ac=False):
     resp = Response()
     ns = {'root': root, 'URL': 'http://h/doc', 'RESPONSE': resp}
     if cookie is not None:
         ns['tree-s'] = cookie
     ns.update(extra)
-    out = T_TREE(**ns)
+    out = (T_TREE_AC if ac else T_TREE)(**ns)
     rows = re.findall(r'\[([^\]]*)\]', out)
     links = LINK.findall(out)
     return out, rows, links, resp.cookies.get('tree-s')
@@ -229,20 +238,25 @@ def node_at(root, path):
     return n
 
 
-def run_clicks(si, clicks):
+def run_clicks(si, clicks, ac=False):
+    """ac: the assume_children option - every collapsed node is assumed to have children (it carries an expand link); an
+    expanded node without children carries none and stays recorded as expanded"""
     root = shape(si)
     E = set()
     cookie, extra = None, {}
     for step in range(len(clicks) + 1):
-        out, rows, links, cookie = render(root, cookie, extra)
+        out, rows, links, cookie = render(root, cookie, extra, ac)
         want = model_rows(root, E)
         if rows != [str(p[-1]) for p in want]:
             return False
-        # exactly one link per displayed node that has children, in display order, expand/collapse matching the model
-        with_kids = [p for p in want if node_at(root, p).kids]
-        if len(links) != len(with_kids):
+        if ac:
+            linked = [p for p in want if p not in E or node_at(root, p).kids]
+        else:
+            linked = [p for p in want if node_at(root, p).kids]
+        # exactly one link per (assumed) parent node, in display order, expand/collapse matching the model
+        if len(links) != len(linked):
             return False
-        for (name, href, kind, val), p in zip(links, with_kids):
+        for (name, href, kind, val), p in zip(links, linked):
             if name != str(p[-1]) or kind != ('c' if p in E else 'e'):
                 return False
         # the cookie describes the same set of expanded nodes
@@ -251,7 +265,7 @@ def run_clicks(si, clicks):
         st = TreeTag.decode_seq(cookie)
         if not st or st[0][0] != 'r':
             return False
-        if state_paths(st) != {p for p in E if node_at(root, p).kids}:
+        if state_paths(st) != ({p for p in E} if ac else {p for p in E if node_at(root, p).kids}):
             return False
         if step == len(clicks):
             break
@@ -268,7 +282,7 @@ def run_clicks(si, clicks):
                 continue
             idx = (c - 2) % len(links)
             name, href, kind, val = links[idx]
-            p = with_kids[idx]
+            p = linked[idx]
             extra = {'tree-' + kind: val}
             if kind == 'e':
                 E = E | {p}
@@ -287,11 +301,11 @@ def make_clicks(L):
     return ob
 
 
-def make_clicks_shape(si, L):
+def make_clicks_shape(si, L, ac=False):
     def ob(c1: int, c2: int, c3: int, c4: int, c5: int) -> bool:
         clicks = [pick(c, 8) for c in (c1, c2, c3, c4, c5)[:L]]
         with NoTracing():
-            return run_clicks(si, clicks)
+            return run_clicks(si, clicks, ac)
     ob.__name__ = 'ob_clicks_s%d_%d' % (si, L)
     return ob
 
@@ -307,7 +321,7 @@ OBLIGATIONS.append(Ob('chunk_layer', ob_chunks, ['0 <= n <= %d' % NMAX, '0 <= ki
                       outside='payloads longer than %d bytes' % NMAX, stubs='zlib.compress returns the chosen byte string, zlib.decompress records its argument (binascii is C: content concrete per path)'))
 OBLIGATIONS.append(Ob('real_roundtrip', ob_real_roundtrip, ['0 <= a < 12', '0 <= b < 12', '0 <= c < 12', '0 <= depth < 3'], timeout=tier(280, 900), path_timeout=60,
                       data='-', selectors='states of depth 1..3 over ids %r' % ([str(i)[:12] for i in IDS],), outside='ids JSON cannot carry (bytes)'))
-OBLIGATIONS.append(Ob('big_state', ob_big_state, ['0 <= n <= 300'], timeout=tier(250, 900), data='number of sibling ids: every value 0..300', selectors='real zlib'))
+OBLIGATIONS.append(Ob('big_state', ob_big_state, ['0 <= n <= 60'], timeout=tier(250, 900), data='number of sibling ids: 0, 20, 40, ... 1200 (state JSON up to ~17 kB)', selectors='real zlib'))
 PRE = ['0 <= c%d < 8' % i for i in range(1, 6)]
 LQ = tier(4, 5)
 for _s in range(NSHAPES):
@@ -315,3 +329,7 @@ for _s in range(NSHAPES):
                           data='click history of %d steps: each step expand_all, collapse_all or one of the links the previous rendering produced' % LQ,
                           selectors='tree shape %d' % _s, outside='histories longer than %d; assume_children, single, leaves/header/footer documents' % LQ,
                           stubs='renders run untraced once shape and history are fixed on the path'))
+for _s in (0, 2, 6):
+    OBLIGATIONS.append(Ob('clicks_assume_children_shape%d' % _s, make_clicks_shape(_s, LQ, True), PRE, timeout=tier(280, 1500), path_timeout=60,
+                          data='click history of %d steps' % LQ, selectors='tree shape %d with the assume_children option (childless nodes can be "expanded")' % _s,
+                          outside='single, leaves/header/footer documents', stubs='renders run untraced once shape and history are fixed on the path'))
